@@ -498,3 +498,21 @@ func init() {
 	mutant("write-stop-never-closed", "server-teardown-bounded", "serverConn.go", "		close(sc.writeStop)\n	}()", "	}()")
 	mutant("socket-left-open-by-writer", "server-teardown-bounded", "serverConn.go", "		defer func() {\n			_ = sc.c.Close()\n		}()\n\n		sc.writeLoop()", "		sc.writeLoop()")
 }
+
+func init() {
+	mutant("handshake-sends-default-settings", "client-loop-shape", "conn.go", "	st.CopyTo(st2)\n", "")
+	mutant("handshake-credit-dropped", "client-loop-shape", "conn.go", "		wu.SetIncrement(int(maxWin))\n", "")
+	mutant("stream-window-update-ignored", "client-loop-shape", "conn.go", "			c.addWindow(fr.Stream(), int32(fr.Body().(*WindowUpdate).Increment()))\n", "")
+	mutant("conn-window-update-on-stream-one", "client-loop-shape", "conn.go", "			c.addWindow(0, int32(fr.Body().(*WindowUpdate).Increment()))", "			c.addWindow(1, int32(fr.Body().(*WindowUpdate).Increment()))")
+	mutant("routing-test-inverted", "client-loop-shape", "conn.go", "		if fr.Stream() != 0 {\n			break\n		}", "		if fr.Stream() == 0 {\n			break\n		}")
+	mutant("goaway-last-stream-not-recorded", "client-loop-shape", "conn.go", "				c.closeRef = ga.stream\n", "")
+	mutant("read-loop-leaves-on-both", "client-loop-shape", "conn.go", "		if stop || c.drained() {", "		if stop && c.drained() {")
+	mutant("finished-response-not-resolved", "client-loop-shape", "conn.go", "			c.finish(r, fr.Stream(), nil)\n", "")
+	mutant("failed-response-reported-as-success", "client-loop-shape", "conn.go", "		c.finish(r, fr.Stream(), err)\n", "		c.finish(r, fr.Stream(), nil)\n")
+	mutant("ctx-not-bound-to-its-connection", "client-loop-shape", "conn.go", "	ctx.conn.Store(c)\n", "")
+	mutant("release-closure-unlocks-twice", "client-loop-shape", "conn.go", "			released = true\n\n			ctx.release()", "			released = false\n\n			ctx.release()")
+	mutant("chunk-sent-again", "client-loop-shape", "conn.go", "		pb.body = pb.body[n:]\n", "")
+	mutant("end-stream-on-every-data-frame", "client-loop-shape", "conn.go", "		data.SetEndStream(end && i+step == len(body))", "		data.SetEndStream(end || i+step == len(body))")
+	mutant("close-error-can-be-nil", "client-loop-shape", "conn.go", "	if err := c.LastErr(); err != nil {\n		return err\n	}\n\n	return ErrConnectionClosed", "	if err := c.LastErr(); err == nil {\n		return err\n	}\n\n	return ErrConnectionClosed")
+	mutant("streamed-body-not-registered", "client-loop-shape", "conn.go", "			pb.stream = req.BodyStream()\n", "")
+}
